@@ -53,6 +53,13 @@ Open Scope Z_scope.
 """
 
 NAMES = {"hard_edges": 0, "w": 1, "label": 2, "second": 3}
+KNOWN_DUP = "edge-list/duplicate-declared"
+
+
+def name_code(n):
+    if n not in NAMES:
+        NAMES[n] = max(NAMES.values()) + 1   # attributes brought by a file (the model only needs distinct codes)
+    return NAMES[n]
 ERR = {"KeyError": 1, "Exception": 2}
 
 
@@ -72,8 +79,8 @@ def edges_term(es):
 def attr_term(a):
     d = 0 if a["default"] is None else int(a["default"])
     if a["dense"]:
-        return "(%s, Dense %s %s)" % (zlit(NAMES[a["name"]]), zlit(d), zlist(a["vals"]))
-    return "(%s, Sparse %s %s)" % (zlit(NAMES[a["name"]]), zlit(d),
+        return "(%s, Dense %s %s)" % (zlit(name_code(a["name"])), zlit(d), zlist(a["vals"]))
+    return "(%s, Sparse %s %s)" % (zlit(name_code(a["name"])), zlit(d),
                                    coq_list(["(%s, %s)" % (zlit(i), zlit(v)) for i, v in a["set"]]))
 
 
@@ -84,7 +91,7 @@ def obs_term(o):
     at = []
     for a in o["eattrs"]:
         keys = [a["n"]] if a["kind"] == "dense" else a["keys"]
-        at.append("(%s, %s, %s, %s, %s)" % (zlit(NAMES.get(a["name"], 98)), coq_bool(a["kind"] == "dense"),
+        at.append("(%s, %s, %s, %s, %s)" % (zlit(name_code(a["name"])), coq_bool(a["kind"] == "dense"),
                                             zlit(a["default"]), zlist(keys), zlist(a["vals"])))
     g = lambda k: o[k] if o[k] is not None else []
     gc = lambda k, i: o[k][i] if o[k] is not None else []
@@ -115,17 +122,20 @@ def edit_term(e):
     raise ValueError(e)
 
 
-def case_term(case, route, stages):
+def case_term(case, route, stages, inp_obs=None):
     cfg = "(%s, %s)" % (coq_bool(case["cfg"][0]), coq_bool(case["cfg"][1]))
     if route == "from_arrays":
         w = len(case["verts"][0]) if case["verts"] else 3
         inp = "(IArr %s %s %s %s %s)" % (zlit(w), zll(case["verts"]), edges_term(case["edges"]), zll(case["faces"]),
                                          zll(case["cells"]))
     else:
+        d = inp_obs if inp_obs is not None else case   # a file route starts from what the importer produced
+        corner = lambda k, i: zlist(d[k][i]) if d.get(k) else "[]"
         dim = "None" if case.get("dim") is None else "(Some %s)" % zlit(case["dim"])
-        raw = "(mkRaw %s %s %s %s [] [] %s [] [] [] [])" % (
-            zll(case["verts"]), edges_term(case["edges"]), coq_list([attr_term(a) for a in case["eattrs"]]),
-            zll(case["faces"]), zll(case["cells"]))
+        raw = "(mkRaw %s %s %s %s %s %s %s %s %s %s %s)" % (
+            zll(d["verts"]), edges_term(d["edges"]), coq_list([attr_term(a) for a in d["eattrs"]]),
+            zll(d["faces"]), corner("fc", 0), corner("fc", 1), zll(d["cells"]), corner("cc", 0), corner("cc", 1),
+            corner("cf", 0), corner("cf", 1))
         inp = "(IRaw %s %s)" % (dim, raw)
     edits = [[]] + list(case.get("edits") or [])
     edits += [[]] * (len(stages) - len(edits))
@@ -278,24 +288,32 @@ def run(ctx):
                       nontrivial=bool((c["faces"] or c["cells"]) and c["edges"]),
                       sample={"input": {k: c[k] for k in ("verts", "edges", "faces", "cells", "cfg")},
                               "edges_out": st0.get("edges")} if idx % 97 == 5 else None)
-        m = O.oracle(c, res)
-        if m:
+        for m in O.oracle_all(c, res):
             failures.append((idx, m))
+        for r in c["routes"]:
+            if "skip" in (res.get(r) or {}):
+                ctx.count("route %s skipped (file could not be written / read)" % r)
         # correspondence terms: one per distinct observation of the case
         seen = {}
         for r in c["routes"]:
             x = res.get(r, {})
             if "stages" not in x:
                 continue
-            kind = "arr" if r == "from_arrays" else "raw"
+            if any(len(cc) not in (4, 8) for cc in (x.get("input") or c)["cells"]):
+                continue   # cells other than tetrahedra / hexahedra are outside the model
+            kind = "arr" if r == "from_arrays" else "file" + json.dumps(x["input"], sort_keys=True) if "input" in x else "raw"
             sig = kind + json.dumps(x["stages"], sort_keys=True)
             if sig in seen:
                 continue
             seen[sig] = r
-            terms.append(case_term(c, r, x["stages"]))
+            terms.append(case_term(c, r, x["stages"], x.get("input")))
             owner.append((idx, r))
-    ctx.obligation("oracle: every finished object satisfies the property sentence restated by brute force (all routes agree)",
-                   "oracle-on-implementation", True, "%d failing cases" % len(failures))
+    unexplained = [f for f in failures if not ctx.known(f[1][0])]
+    ctx.obligation("oracle: every finished object satisfies the property sentence restated by brute force (all routes agree, "
+                   "no later operation raises); listed known findings excepted",
+                   "oracle-on-implementation", not unexplained,
+                   "%d failing observation(s), %d of them instances of listed known findings; first: %s"
+                   % (len(failures), len(failures) - len(unexplained), unexplained[0][1][0] if unexplained else "-"))
 
     # ---- kernel-checked correspondence
     bad = []
@@ -326,7 +344,19 @@ def run(ctx):
         small = shrink(cases[idx], key)
         m2 = fails(small) or (key, msg)
         ctx.violation("C02 %s: %s" % (m2[0], m2[1][:600]), {"case": small, "class": key}, key=key)
-    if bad and not failures:
+    # the witness of the listed known finding is replayed on every run
+    kd = ctx.known(KNOWN_DUP)
+    if kd is not None:
+        wit = {"verts": [[0, 0, 0], [4, 0, 0], [0, 4, 0]], "vints": False, "edges": [[0, 1], [1, 0]], "faces": [[0, 1, 2]],
+               "cells": [], "eattrs": [], "cfg": [True, True], "dim": None, "routes": ["list"], "rewraps": 0, "edits": [],
+               "script": []}
+        m = fails(wit)
+        if m and m[0] == KNOWN_DUP:
+            ctx.report_known(KNOWN_DUP, kd["what"])
+        else:
+            ctx.log("known finding %s: its witness no longer fails (%s)" % (KNOWN_DUP, m))
+            ctx.notes.append("the witness of known finding %s no longer fails: the code seems repaired" % KNOWN_DUP)
+    if bad and not unexplained:
         for i in bad[:3]:
             idx, r = owner[i]
             ctx.log("model/implementation disagreement on case %d route %s: %s" % (idx, r, json.dumps(cases[idx])[:1500]))
